@@ -101,6 +101,12 @@ class NpProxy:
             return out
         return np.bincount(x, weights, minlength)
 
+    def empty(self, shape, dtype=float, **kw):
+        """a float `np.empty` buffer whose columns are assigned symbolic values"""
+        if NpProxy.tracer is not None and dtype is float:
+            return self.zeros(shape)
+        return np.empty(shape, dtype=dtype, **kw)
+
     def zeros(self, shape, dtype=float, **kw):
         """a float `np.zeros` buffer that receives symbolic values through `np.add.at` / item assignment"""
         if NpProxy.tracer is not None and dtype is float:
@@ -513,4 +519,98 @@ def gen_level():
         g.pc(tr, names, nm="pc" + tag)
         g.scalar("len" + tag, tr, as_sym(tr, ll).id, names)
         g.vec("lens" + tag, tr, flat_syms(tr, ll2), names)
+    return [g.write()]
+
+
+def gen_solver_aniso():
+    """`Solver.__init__` for a triangle mesh with `aniso=(a0, a1)` and with a scalar `aniso`, given a symbolic per-triangle output
+    `(u1, u2, c1, c2)` of `curvature_tria` (external here: its eigen-decomposition is C17's subject): dispatch on the type name, the
+    weights `exp(-a*|c|)`, the column they are written to, the call of `_fem_tria_aniso` and the `lump` flag passed on"""
+    import lapy.solver as S
+    written = []
+    tr = Tracer()
+    v = sym_array(tr, "v", (3, 3))
+    u1 = sym_array(tr, "a", (1, 3))
+    u2 = sym_array(tr, "b", (1, 3))
+    c1 = sym_array(tr, "c", (1,))
+    c2 = sym_array(tr, "e", (1,))
+    a0, a1 = tr.var("a0"), tr.var("a1")
+    names = v3_names("v", 3)
+    names.update({"a0_%d" % c: "u1.%s" % AX[c] for c in range(3)})
+    names.update({"b0_%d" % c: "u2.%s" % AX[c] for c in range(3)})
+    names.update({"c0": "c1", "e0": "c2", "a0": "a0", "a1": "a1"})
+
+    class TriaMesh:          # `Solver.__init__` dispatches on the NAME of the geometry's type
+        def __init__(self):
+            self.v = v
+            self.t = np.array([[0, 1, 2]])
+            self.smooth_seen = []
+
+        def curvature_tria(self, smoothit=3):
+            self.smooth_seen.append(smoothit)
+            return u1, u2, c1, c2
+
+    out = {}
+    with shim(S), core_quiet():
+        with np_proxied(S, tr):
+            for tag, an, lump in (("pair", (a0, a1), False), ("scalar", a0, False), ("pairL", [a0, a1], True)):
+                g0 = TriaMesh()
+                s = S.Solver(g0, lump=lump, aniso=an, aniso_smooth=7)
+                out[tag] = (s.stiffness, s.mass, list(g0.smooth_seen))
+    g = GenModule("SolverAniso", "lapy/solver.py::Solver.__init__ (TriaMesh, aniso) given the output of curvature_tria",
+                  "(v0 v1 v2 u1 u2 : V3 ℝ) (c1 c2 a0 a1 : ℝ)")
+    g.set_args("v0 v1 v2 u1 u2 c1 c2 a0 a1")
+    g.pc(tr, names)
+    g.coo("A", tr, out["pair"][0].trip, names)
+    g.coo("B", tr, out["pair"][1].trip, names)
+    g.coo("As", tr, out["scalar"][0].trip, names)
+    g.coo("AL", tr, out["pairL"][0].trip, names)
+    g.coo("BL", tr, out["pairL"][1].trip, names)
+    g.raw("/-- the `smoothit` values handed to `curvature_tria` by the three constructor calls (`aniso_smooth = 7`) -/")
+    g.raw("def smoothSeen : List (List Nat) := [%s]\n" % ", ".join("[%s]" % ", ".join(str(int(x)) for x in out[k][2]) for k in ("pair", "scalar", "pairL")))
+    written.append(g.write())
+    return written
+
+
+@contextlib.contextmanager
+def core_quiet():
+    from . import core
+    with core.quiet():
+        yield
+
+
+def gen_curv_tria():
+    """`curvature_tria` given a symbolic per-vertex output of `curvature()` (external here: LAPACK's eigen-decomposition and its
+    post-processing are C17's other half): pooling to triangles, projection onto the triangle plane, normalisation with the
+    `max(., 1e-8)` floors, second direction by a cross product; traced on the tetrahedron boundary, reported for triangle 0"""
+    import lapy.tria_mesh as TM
+    tr = Tracer()
+    v = sym_array(tr, "v", (4, 3))
+    um = sym_array(tr, "p", (4, 3))
+    uM = sym_array(tr, "q", (4, 3))
+    cm = sym_array(tr, "c", (4,))
+    cM = sym_array(tr, "e", (4,))
+    names = v3_names("v", 4)
+    names.update(v3_names("p", 4))
+    names.update(v3_names("q", 4))
+    names.update({"c%d" % k: "c%d" % k for k in range(4)})
+    names.update({"e%d" % k: "e%d" % k for k in range(4)})
+    m = TM.TriaMesh(v, np.array(T4))
+    seen = []
+
+    def curv(smoothit=3):
+        seen.append(int(smoothit))
+        return um, uM, cm, cM, None, None, None
+    m.curvature = curv
+    with np_proxied(TM, tr):
+        tumin, tumax, tcmin, tcmax = m.curvature_tria(5)
+    g = GenModule("CurvTria", "lapy/tria_mesh.py::curvature_tria given the output of curvature(), tetrahedron boundary, triangle 0",
+                  "(v0 v1 v2 v3 p0 p1 p2 p3 q0 q1 q2 q3 : V3 ℝ) (c0 c1 c2 c3 e0 e1 e2 e3 : ℝ)")
+    g.set_args("v0 v1 v2 v3 p0 p1 p2 p3 q0 q1 q2 q3 c0 c1 c2 c3 e0 e1 e2 e3")
+    g.pc(tr, names)
+    g.vec("umin0", tr, flat_syms(tr, tumin[0]), names)
+    g.vec("umax0", tr, flat_syms(tr, tumax[0]), names)
+    g.scalar("cmin0", tr, as_sym(tr, tcmin[0]).id, names)
+    g.scalar("cmax0", tr, as_sym(tr, tcmax[0]).id, names)
+    g.raw("def smoothSeen : List Nat := [%s]\n" % ", ".join(str(x) for x in seen))
     return [g.write()]
